@@ -89,7 +89,9 @@ func parseTree(s string) *atree {
 // opaque is an Assigner that does not implement Namer.
 type opaque struct{ m handler.Map }
 
-func (o opaque) Assign(ctx context.Context, method string) jrpc2.Handler { return o.m.Assign(ctx, method) }
+func (o opaque) Assign(ctx context.Context, method string) jrpc2.Handler {
+	return o.m.Assign(ctx, method)
+}
 
 type ctxLog struct {
 	mu   sync.Mutex
@@ -444,6 +446,8 @@ func c17Main(cfg *config) {
 		"s[61:m[78=1;792e7a=2;];62:s[63:m[64=3;];];6f:o[71=4;];]",
 		"m[7270632e78=1;7270632e736572766572496e666f=2;727063=3;612e62=4;]",
 		"s[727063:m[78=1;736572766572496e666f=2;];-:m[78=3;-=4;];]",
+		"s[727063:m[-=5;78=1;];72:m[70632e=6;];]", // ServiceMap{"rpc": Map{"": h, "x": h}}: the name "rpc." reaches a handler unless gated
+		"m[7270632e=1;727063=2;7270632e2e=3;]",    // Map{"rpc.": h, "rpc": h, "rpc..": h}
 	}
 	var trees []*atree
 	for _, s := range fixed {
